@@ -316,6 +316,11 @@ class Excl:
             "std::iter::Iterator::by_ref": (0, "same"),
             "std::iter::Iterator::peekable": (0, "same"),
             "std::option::Option::<T>::iter": (0, "same"),
+            "std::iter::Iterator::enumerate": (0, "same"),
+            "std::iter::Iterator::fuse": (0, "same"),
+            "std::iter::Iterator::inspect": (0, "same"),
+            "std::iter::Iterator::cloned": (0, "same"),
+            "std::iter::Iterator::copied": (0, "same"),
         })
         filters = []
         sources = []
